@@ -288,3 +288,27 @@ def shutdown_order(ctx):
         ctx.check(ok, f'{g.qualname}:users before the modules they are attached to', g.node,
                   'a module is appended after its attached modules and the list is returned reversed',
                   f'post-order={post}, return forms={forms}: the resulting order shuts an attached module (e.g. the communicator) down before its users', g)
+
+
+@rule('C15.R4b', min_instances=1)
+def start_trigger_registered_before_the_thread_runs(ctx):
+    """startModule obtains the start trigger (start_events.get_trigger()) itself, i.e. before the poll thread exists: the
+    server's wait can then never find an empty set of start events while a poll thread has not even begun"""
+    m = ctx.m
+    sm = m.method(roles.MODULE, 'startModule', inherited=False)
+    ctx.analysed(sm)
+    cfg = CFG(sm.node, m, sm.module)
+    mk = [c for c in calls_in(sm.node) if dotted(c.func) in ('mkthread', 'threading.Thread')]
+    if not mk:
+        raise AnchorMissing('mkthread call not found in Module.startModule', violation=f'{sm.qualname}:poll thread started')
+    ev = sm.node.args.args[1].arg if len(sm.node.args.args) > 1 else 'start_events'
+    for c in mk:
+        trig_here = [x for x in calls_in(sm.node) if call_attr(x) == 'get_trigger']
+        as_arg = any(isinstance(a, ast.Call) and call_attr(a) == 'get_trigger' for a in c.args) or \
+            any(all(cfg.dominates(cfg.node_of(t), i) for i in cfg.node_of(c)) for t in trig_here)
+        passes_events = any(isinstance(a, ast.Name) and a.id == ev for a in c.args)
+        ctx.check(as_arg and not passes_events, f'{sm.qualname}:start trigger obtained before the thread is started', c,
+                  'get_trigger() is evaluated in startModule and handed to the thread',
+                  'the start trigger is not obtained in startModule (the MultiEvent itself is handed to the thread): when the main thread reaches '
+                  'start_events.wait() before the new thread registered its trigger, nothing is registered and the node reports ready before '
+                  'the configured values were written and the first polls were done', sm)
